@@ -242,7 +242,7 @@ class Marginal(Generic[R], SampleDistribution):
         self,
         key: PRNGKey,
         v: ChoiceMap,
-        *args: tuple[Any, ...],
+        *args: Any,
     ) -> Score:
         if self.algorithm is None:
             _, weight = self.gen_fn.importance(key, v, args)
